@@ -12,6 +12,10 @@ VARIABLES s, hs, bad, h
 
 vars == <<s, hs, bad, h>>
 View == <<s, hs, bad>>
+\* for depth-bounded model checking: with the length of the history in the fingerprint a state is
+\* explored at every depth at which it occurs, so the bound cuts exactly (every history shorter
+\* than the bound is judged, whatever the order in which TLC's workers find the states)
+ViewD == <<s, hs, bad, Len(h)>>
 
 Cf(cap, ttl, tti, wg, hc) ==
     [kind |-> "sync", cap |-> cap, ttl |-> ttl, tti |-> tti, weigher |-> wg,
